@@ -160,7 +160,7 @@ func randomCase(r *rand.Rand) (Case, string) {
 	t.Struct, t.Enc = "ok", map[string]string{"h": "ok", "p": "ok", "s": "ok"}
 	// signer
 	t.Signer = Signer{Mat: "m1", Alg: a, Mode: "good"}
-	switch r.Intn(12) {
+	switch r.Intn(20) {
 	case 0:
 		t.Signer.Mat = pick(r, []string{"m2", "m3", "mX"})
 	case 1:
@@ -174,7 +174,7 @@ func randomCase(r *rand.Rand) (Case, string) {
 	// header
 	var hm []member
 	t.Hdr = Hdr{JSON: "object", Alg: sv(a), Kid: Val{K: "absent"}, Typ: Val{K: "absent"}, Crit: "absent"}
-	switch r.Intn(14) {
+	switch r.Intn(24) {
 	case 0:
 		t.Hdr.Alg = sv(pick(r, append([]string{"none", strings.ToLower(a), "HS256", "RS256", ""}, algs...)))
 	case 1:
@@ -183,7 +183,7 @@ func randomCase(r *rand.Rand) (Case, string) {
 	if t.Hdr.Alg.K == "str" {
 		hm = append(hm, member{"alg", jstr(t.Hdr.Alg.V)})
 	}
-	switch r.Intn(8) {
+	switch r.Intn(14) {
 	case 0: // no kid
 	case 1:
 		t.Hdr.Kid = sv(randStr(r))
@@ -255,8 +255,8 @@ func randomCase(r *rand.Rand) (Case, string) {
 		pm = append(pm, member{name, txt})
 	}
 	tm("exp", &t.Pl.Exp, now-v.Skew, 8)
-	tm("nbf", &t.Pl.Nbf, now+v.Skew, 2)
-	tm("iat", &t.Pl.Iat, now+v.Skew, 2)
+	tm("nbf", &t.Pl.Nbf, now+v.Skew-2, 2)
+	tm("iat", &t.Pl.Iat, now+v.Skew-2, 2)
 	if r.Intn(2) == 0 { // make the time rules pass more often
 		if t.Pl.Exp.K == "num" && t.Pl.Exp.T <= now-v.Skew {
 			t.Pl.Exp.T += 4000
@@ -277,7 +277,7 @@ func randomCase(r *rand.Rand) (Case, string) {
 	r.Shuffle(len(pm), func(i, j int) { pm[i], pm[j] = pm[j], pm[i] })
 	// validator expectations: mostly consistent with the token
 	exp := func(present bool, val string) Exp {
-		switch r.Intn(6) {
+		switch r.Intn(12) {
 		case 0:
 			return Exp{K: "ignore"}
 		case 1:
